@@ -48,9 +48,14 @@ package receiver
 //@   ensures err != nil ==> result == nil
 
 //@ func (*receiver.Transfer).receiveData
+//@   requires[C10] [not-dry-run] !rt.Opts.DryRun
 //@   requires [basis-root] localFile == nil || fileRoot(localFile) == rt.DestRoot
 //@   nullable localFile
 //@   modifies *
 
 //@ func (*receiver.Transfer).createDevice
+//@   requires[C10] [not-dry-run] !rt.Opts.DryRun
 //@   nullable st
+
+//@ func (*receiver.Transfer).setUid
+//@   requires[C10] [not-dry-run] !rt.Opts.DryRun
